@@ -59,8 +59,36 @@ def cases(code):
             "acc": draw(st.sampled_from(["deep_gz", "flat", "deep",
                                          "flat_gz"])),
             "cli": draw(st.booleans()),
+            # file naming: the documented slice order is the lexicographic
+            # order of the names, whatever they look like
+            "naming": draw(st.sampled_from(["padded", "padded", "unpadded",
+                                            "upper_ext", "tif", "words"])),
+            # the directory holds symbolic links to files kept elsewhere
+            # under unrelated names
+            "symlinks": draw(st.integers(0, 4)) == 0,
             "seed": draw(st.integers(0, 1000))}
     return strat()
+
+
+WORDS = ["Zeta", "alpha", "Beta", "gamma", "10", "9", "_x", "a b", "a.b",
+         "B", "ab", "a", "z", "M", "m", "0", "00", "-1"]
+
+
+def slice_names(naming, nsl):
+    """File names of the slices in stack order (first slice first): the
+    lexicographically sorted list of the generated names."""
+    if naming == "unpadded":
+        names = ["%d.png" % (s + 1) for s in range(nsl)]
+    elif naming == "upper_ext":
+        names = ["S%03d.PNG" % s for s in range(nsl)]
+    elif naming == "tif":
+        names = ["img_%d.tif" % (7 * s) for s in range(nsl)]
+    elif naming == "words":
+        names = [WORDS[s % len(WORDS)] + ("" if s < len(WORDS) else str(s))
+                 + ".png" for s in range(nsl)]
+    else:
+        names = ["s%03d.png" % s for s in range(nsl)]
+    return sorted(names)
 
 
 def stack_value(c, s, r, q, seed, pix):
@@ -86,13 +114,26 @@ def check_case(ctx, case):
                         stack[c, s, r, q] = stack_value(c, s, r, q,
                                                         case["seed"], pixs[c])
         dirs = []
+        names = slice_names(case.get("naming", "padded"), nsl)
+
+        def place(directory, name, s):
+            """Path to save slice s to, so that directory/name designates
+            it (directly, or through a symbolic link)."""
+            if not case.get("symlinks"):
+                return os.path.join(directory, name)
+            store = os.path.join(d, "acquired", os.path.basename(directory))
+            os.makedirs(store, exist_ok=True)
+            ext = os.path.splitext(name)[1]
+            target = os.path.join(store, "scan_%03d%s" % (nsl - s, ext))
+            os.symlink(target, os.path.join(directory, name))
+            return target
         if case["layout"] == "rgb":
             p = os.path.join(d, "in0")
             os.makedirs(p)
             dirs.append(p)
             for s in range(nsl):
                 PIL.Image.fromarray(np.moveaxis(stack[:, s], 0, -1), "RGB"
-                                    ).save(os.path.join(p, "s%03d.png" % s))
+                                    ).save(place(p, names[s], s))
         else:
             for c in range(nch):
                 p = os.path.join(d, "in%d" % c)
@@ -100,7 +141,7 @@ def check_case(ctx, case):
                 dirs.append(p)
                 for s in range(nsl):
                     PIL.Image.fromarray(stack[c, s].astype(pixs[c])).save(
-                        os.path.join(p, "s%03d.png" % s))
+                        place(p, names[s], s))
         size = orient_ref.output_size(code, ncol, nrow, nsl)
         block = case.get("block")
         scale = ds.make_scale("1um", size, case["chunk"],
@@ -222,6 +263,9 @@ def run(ctx, n):
                                   "cli" if case["cli"] else "api",
                                   "enc.cseg" if case.get("block") else
                                   "enc.raw",
+                                  "naming." + case.get("naming", "padded"),
+                                  "symlinks" if case.get("symlinks") else
+                                  "plain_files",
                                   "mixed_pixel_types" if case.get("pixs") and
                                   len(set(case["pixs"])) > 1 else
                                   "one_pixel_type"])
